@@ -745,13 +745,24 @@ def py_lookup_shape(pf, key):
         return False, 'expected one loop over the transitions'
     body = loops[0].a[4]
     keep = brk = False
+    # locals of the loop body that hold a field of the transition: they count as "the start" only when that field is `key`
+    holds = {}
+    for s in body:
+        if s.k == 'assign' and s.a[0].k == 'var' and s.a[1].k == 'field':
+            holds[s.a[0].a[0]] = s.a[1].a[1]
+    wrong = [v for v, fld in holds.items() if 'start' in v.lower() and fld != key]
+    if wrong:
+        return False, 'the loop compares the query with %s = transition.%s, not with transition.%s' % (wrong[0], holds[wrong[0]], key)
+
+    def is_start(txt):
+        return key in txt or any(v in txt for v, fld in holds.items() if fld == key)
     for s in body:
         if s.k == 'if':
             c = s.a[0]
             if c.k == 'bin' and c.a[0] in ('>', '<=', '<', '>='):
                 lt, rt, op = show(c.a[1]), show(c.a[2]), c.a[0]
-                start_left = key in lt or 'start_time' in lt
-                if not start_left and (key in rt or 'start_time' in rt):
+                start_left = is_start(lt)
+                if not start_left and is_start(rt):
                     op = {'>': '<', '<': '>', '<=': '>=', '>=': '<='}[op]
                     start_left = True
                 if not start_left:
@@ -828,6 +839,7 @@ SELFTEST = [
     dict(id='python-expand-drops-delta', file='tools/zonedb/zone_specifier.py', find='            ss = dtu.ss + delta_seconds + offset_seconds', replace='            ss = dtu.ss + offset_seconds', rule='R1', construct='expandDateTuple'),
     dict(id='cpp-match-upper-bound-not-clipped', file='src/ace_time/ExtendedZoneProcessor.h',
          find='      if (upperBound < untilDate) {\n        untilDate = upperBound;\n      }', replace='', rule='R1', construct='createMatch'),
+    dict(id='python-lookup-wrong-field', file='tools/zonedb/zone_specifier.py', find='            start_time = transition.startDateTime', replace='            start_time = transition.transitionTime', rule='R1-loop'),
     dict(id='python-lookup-stops-on-equal', file='tools/zonedb/zone_specifier.py', find='            if start_time > dt_time:\n                break', replace='            if start_time >= dt_time:\n                break', rule='R1-loop'),
     dict(id='cpp-normalise-only-whole-days', file='src/ace_time/ExtendedZoneProcessor.h', find='      while (dt->minutes < 0) {', replace='      while (dt->minutes <= -kOneDayAsMinutes) {', rule='R2'),
     dict(id='python-basic-selector-adds-prior-despite-start', file='tools/zonedb/zone_specifier.py',
